@@ -38,6 +38,34 @@ type Target struct {
 	received int64
 	srv      *grpc.Server
 	Addr     string
+	answers  atomic.Value // map[string]codes.Code: entry name -> the status this target answers its calls with
+}
+
+// StatusByName: the gRPC status names the case generator uses.
+var StatusByName = map[string]codes.Code{"OK": codes.OK, "CANCELLED": codes.Canceled, "UNKNOWN": codes.Unknown,
+	"INVALID_ARGUMENT": codes.InvalidArgument, "DEADLINE_EXCEEDED": codes.DeadlineExceeded, "NOT_FOUND": codes.NotFound,
+	"ALREADY_EXISTS": codes.AlreadyExists, "PERMISSION_DENIED": codes.PermissionDenied, "RESOURCE_EXHAUSTED": codes.ResourceExhausted,
+	"FAILED_PRECONDITION": codes.FailedPrecondition, "ABORTED": codes.Aborted, "OUT_OF_RANGE": codes.OutOfRange,
+	"UNIMPLEMENTED": codes.Unimplemented, "INTERNAL": codes.Internal, "UNAVAILABLE": codes.Unavailable, "DATA_LOSS": codes.DataLoss,
+	"UNAUTHENTICATED": codes.Unauthenticated}
+
+// SetAnswers: calls of the named entries (the name is the part before the first '.' of the constant prefix of the
+// entry's string fields / metadata values, e.g. "e12" in "e12.name~5012") are answered with that status.
+func (t *Target) SetAnswers(m map[string]codes.Code) { t.answers.Store(m) }
+
+func (t *Target) answerFor(pres []string) codes.Code {
+	m, _ := t.answers.Load().(map[string]codes.Code)
+	if len(m) == 0 {
+		return codes.OK
+	}
+	for _, p := range pres {
+		if i := strings.IndexByte(p, '.'); i > 0 {
+			if c, ok := m[p[:i]]; ok {
+				return c
+			}
+		}
+	}
+	return codes.OK
 }
 
 func ownMetadata(k string) bool {
@@ -72,6 +100,7 @@ type GRPCOpts struct {
 	TrackConns bool
 	Addr       string
 	SlowFor    time.Duration
+	Rich       bool // also serve verif.MapService (rich.go): the JSON -> protobuf mapping classes
 }
 
 type connKey struct{}
@@ -108,6 +137,9 @@ func StartGRPCOpts(rec *Rec, o GRPCOpts) *Target {
 	}
 	t.srv = grpc.NewServer(opts...)
 	server.RegisterTargetServiceServer(t.srv, t)
+	if o.Rich {
+		t.registerRich(t.srv)
+	}
 	if o.Reflection {
 		reflection.Register(t.srv)
 	}
@@ -137,6 +169,12 @@ func (t *Target) Stop() { t.srv.Stop() }
 func (t *Target) Received() int64 { return atomic.LoadInt64(&t.received) }
 
 func (t *Target) intercept(ctx context.Context, req interface{}, info *grpc.UnaryServerInfo, h grpc.UnaryHandler) (interface{}, error) {
+	if strings.HasPrefix(info.FullMethod, "/"+RichService+"/") {
+		return t.interceptRich(ctx, req, info, h)
+	}
+	if md, ok := metadata.FromIncomingContext(ctx); ok && len(md.Get("x-case")) > 0 { // a case of the JSON mapping run
+		return t.interceptRich(ctx, req, info, h)
+	}
 	msg := map[string]interface{}{}
 	if pm, ok := req.(proto.Message); ok {
 		b, err := protojson.MarshalOptions{UseProtoNames: true}.Marshal(pm)
@@ -144,6 +182,7 @@ func (t *Target) intercept(ctx context.Context, req interface{}, info *grpc.Unar
 			_ = json.Unmarshal(b, &msg)
 		}
 	}
+	pres := []string{} // constant prefixes ("<entry>.<field>"): the entry a call belongs to
 	toks := []string{} // the token part of every value written as "<prefix>~<token>"
 	fields := []E{}
 	names := make([]string, 0, len(msg))
@@ -162,6 +201,7 @@ func (t *Target) intercept(ctx context.Context, req interface{}, info *grpc.Unar
 		fields = append(fields, E{"f": k, "v": s, "pre": pre, "tok": tok})
 		if pre != "" {
 			toks = append(toks, tok)
+			pres = append(pres, pre)
 		}
 	}
 	mds := []E{}
@@ -179,6 +219,7 @@ func (t *Target) intercept(ctx context.Context, req interface{}, info *grpc.Unar
 				mds = append(mds, E{"k": k, "v": v, "pre": pre, "tok": tok})
 				if pre != "" {
 					toks = append(toks, tok)
+					pres = append(pres, pre)
 				}
 			}
 		}
@@ -190,7 +231,11 @@ func (t *Target) intercept(ctx context.Context, req interface{}, info *grpc.Unar
 	if t.track {
 		conn, _ = ctx.Value(connKey{}).(int)
 	}
-	t.rec.Emit(E{"ev": "Recv", "proto": "grpc", "srv": t.name, "conn": conn, "method": m, "fields": fields, "md": mds, "toks": toks})
+	ans := t.answerFor(pres)
+	t.rec.Emit(E{"ev": "Recv", "proto": "grpc", "srv": t.name, "conn": conn, "method": m, "fields": fields, "md": mds, "toks": toks, "ans": ans.String()})
+	if ans != codes.OK {
+		return nil, status.Error(ans, "the target answers this entry with "+ans.String())
+	}
 	return h(ctx, req)
 }
 
